@@ -24,7 +24,12 @@ VAR_TOKENS = ['a1', 'a12', 'a0', 'b3', 'b10', '_a1', 'a1_', 'xa1', 'a1x', ' ', '
 SPAN_TOKENS = ['a1', 'b2', 'a0', 'a[1]', 'b[12]', 'a[0]', 'a.name', 'b._x1', 'a.1x', 'NR', '_v', ' as x', ' AS y_1', ' as  z ', ' As w', ' as 1x', '(', ')', '[', ']', '{', '}', ',', ',', ' ', ' ',
                '__RBQL_INTERNAL_STAR', 'a.__RBQL_INTERNAL_STAR', 'b.__RBQL_INTERNAL_STAR', PH0, PH1, 'a[' + PH0 + ']', 'b[' + PH1 + ']', 'a[' + PH1 + '5]', '___RBQL_STRING_LITERAL7___', 'a[___RBQL_STRING_LITERAL7___]',
                '+', 'x', '\n', ' ', 'as', 'c.name', 'a.b.c', '1']
-LITS_POOL = [["'na\\'me'", '"q\\"x\\\\y"'], ["'x'", '"t, u"'], ['"col 1"', "'b'"], ["' as z'", '"(["'], ["''", '""']]
+LITS_POOL = [["'na\\'me'", '"q\\"x\\\\y"'], ["'x'", '"t, u"'], ['"col 1"', "'b'"], ["' as z'", '"(["'], ["''", '""'],
+             ['"x\\ty"', "'n\\nl\\r'"], ['"b\\\\s\\\\"', "'p\\\\q'"], ["'it\\'s \\\"q\\\"'", '"\\\\t"']]
+
+# literals whose escapes Python and JavaScript read differently from the header parser (\\x41 is `A` for both evaluators, four characters for
+# unquote_string): only for the direct comparison of the rbql-js span parser with its model
+LITS_POOL_JS = LITS_POOL + [["'\\x41\\q'", '"\\u0041"'], ['"tab\\there\\', "'"]]
 
 
 def token_strings(rnd, tokens, n, maxlen=7):
@@ -109,7 +114,7 @@ def run_leg(res, tier, seed, kinds):
         for s in strs:
             add(('js',), 'colinfos %s %s' % (enc_str(s), enc_list([])), None)
         for s in token_strings(rnd, SPAN_TOKENS, 6000 if quick else 80000, 8):
-            add(('js',), 'colinfos %s %s' % (enc_str(s), enc_list(rnd.choice(LITS_POOL))), None)
+            add(('js',), 'colinfos %s %s' % (enc_str(s), enc_list(rnd.choice(LITS_POOL_JS))), None)
         for lang in ('py', 'js'):
             for text, lits in gen_select_lists(rnd, 3000 if quick else 40000, lang):
                 add((lang,), 'selinfos %%s %s %s' % (enc_str(text), enc_list(lits)), ('selinfos1',))
